@@ -62,6 +62,10 @@ def display_into(vm, ty, ref, fref, debug=False):
         target = v if isinstance(v, Ref) else Ref(Cell(v))
         return vm.call(f'<{t} as {tr}>::fmt', [target, fref], None, None, subst={})
     x = D(vm, v)
+    if isinstance(x, (Adt, SymEnum)) and vm.mir.by_impl.get((tr, x.ty, 'fmt')):      # generic / impl Trait argument: runtime type
+        tgt = v
+        while isinstance(tgt, Ref) and isinstance(vm.ref_get(tgt), Ref): tgt = vm.ref_get(tgt)
+        return vm.call(f'<{x.ty} as {tr}>::fmt', [tgt if isinstance(tgt, Ref) else Ref(Cell(x)), fref], None, None, subst={})
     if isinstance(x, RcVal):
         inner = type_head(t)[1]
         return display_into(vm, inner[0] if inner else '', Ref(x.box.cell), fref, debug)
